@@ -320,6 +320,15 @@ class Adapter(object):
       if r[0] == "ok":
         return {"ok": "T", "b": r[1]}
       return {"ok": "F" if r[0] == "exc" else "crash:" + r[1], "b": 0}
+    if a == "ParseCidrAgain":
+      # the same text was asked about before, with other flags: the earlier answers are of no interest
+      k = args["k"]
+      if k == "v4":
+        call(A.parse_cidr, args["text"], infer=args["infer0"], allow_host=args["allowHost0"])
+        call(A.IPAddr.parse_cidr, args["text"], infer=args["infer0"], allow_host=args["allowHost0"])
+      else:
+        call(A.IPAddr6.parse_cidr, args["text"], allow_host=args["allowHost0"])
+      a = "ParseCidr"
     if a == "ParseCidr":
       k = args["k"]
       if k == "v4":
